@@ -136,11 +136,11 @@ def c08_exec(plan):
                     k -= n
                 if op == "setbit":
                     v = (u[2] >> 1) & 1
-                    H[i][k] = v
                     ev["a"] = {"h": i, "i": k, "v": v}
+                    H[i][k] = v
                 else:
-                    res = H[i][k]
                     ev["a"] = {"h": i, "i": k, "dst": s.get("dst")}
+                    res = H[i][k]
                     if s.get("dst") is not None:
                         H[s["dst"]] = res
             elif op in ("setslice", "getslice"):
@@ -178,12 +178,13 @@ def c08_exec(plan):
                 i = pick(u[0])
                 if i is None:
                     raise _Skip()
-                H[i].size = s["size"]
                 ev["a"] = {"h": i, "size": s["size"]}
+                H[i].size = s["size"]
             elif op in ("zeroextend", "signextend", "extend"):
                 i = pick(u[0], (lambda o: o.size > 0) if op != "zeroextend" else None)
                 if i is None:
                     raise _Skip()
+                ev["a"] = {"h": i, "size": s["size"]}
                 if op == "zeroextend":
                     r = H[i].zeroextend(s["size"])
                     sign = False
@@ -209,6 +210,8 @@ def c08_exec(plan):
                     other, od = s["int"], {"int": s["int"]}
                 left_int = bool(s.get("left_int")) and "int" in od and op == "binop"
                 x, y = (other, H[i]) if left_int else (H[i], other)
+                dst = i if op == "aug" else s["dst"]
+                ev["a"] = {"h": i, "operator": o, "other": od, "left_int": left_int, "dst": dst}
                 if o == "+":
                     r = x + y
                 elif o == "-":
@@ -219,8 +222,6 @@ def c08_exec(plan):
                     r = x | y
                 else:
                     r = x ^ y
-                dst = i if op == "aug" else s["dst"]
-                ev["a"] = {"h": i, "operator": o, "other": od, "left_int": left_int, "dst": dst}
                 H[dst] = r
                 res = r
             elif op == "mul":
@@ -232,16 +233,16 @@ def c08_exec(plan):
                     other, od = H[j], {"handle": j}
                 else:
                     other, od = s["int"], {"int": s["int"]}
-                r = H[i] * other
                 ev["a"] = {"h": i, "other": od, "dst": s["dst"]}
+                r = H[i] * other
                 H[s["dst"]] = r
                 res = r
             elif op == "unary":
                 i = pick(u[0])
                 if i is None:
                     raise _Skip()
-                r = ~H[i] if s["operator"] == "~" else -H[i]
                 ev["a"] = {"h": i, "operator": s["operator"], "dst": s["dst"]}
+                r = ~H[i] if s["operator"] == "~" else -H[i]
                 H[s["dst"]] = r
                 res = r
             elif op == "shift":
@@ -249,8 +250,8 @@ def c08_exec(plan):
                 if i is None:
                     raise _Skip()
                 k = u[1] % (H[i].size + 3)
-                r = (H[i] << k) if s["operator"] == "<<" else (H[i] >> k)
                 ev["a"] = {"h": i, "operator": s["operator"], "k": k, "dst": s["dst"]}
+                r = (H[i] << k) if s["operator"] == "<<" else (H[i] >> k)
                 H[s["dst"]] = r
                 res = r
             elif op == "rot":
@@ -258,8 +259,8 @@ def c08_exec(plan):
                 if i is None:
                     raise _Skip()
                 k = u[1] % (H[i].size + 1)
-                r = ops_mod.rol(H[i], k) if s["operator"] == "rol" else ops_mod.ror(H[i], k)
                 ev["a"] = {"h": i, "operator": s["operator"], "k": k, "dst": s["dst"]}
+                r = ops_mod.rol(H[i], k) if s["operator"] == "rol" else ops_mod.ror(H[i], k)
                 H[s["dst"]] = r
                 res = r
             elif op == "concat":
@@ -271,8 +272,8 @@ def c08_exec(plan):
                     other, od = H[j], {"handle": j}
                 else:
                     other, od = s["int"], {"int": s["int"]}
-                r = H[i] // other
                 ev["a"] = {"h": i, "other": od, "dst": s["dst"]}
+                r = H[i] // other
                 H[s["dst"]] = r
                 res = r
             elif op == "split":
@@ -280,6 +281,7 @@ def c08_exec(plan):
                 if i is None:
                     raise _Skip()
                 k = 1 + u[1] % max(1, H[i].size)
+                ev["a"] = {"h": i, "k": k}
                 res = H[i].split(k)
                 ev["a"] = {"h": i, "k": k, "dst": s.get("dst") if res else None, "piece": (u[2] % len(res)) if res else None}
                 if res and s.get("dst") is not None:
@@ -443,6 +445,11 @@ class C08(Machine):
                 trace.append("%d:%s:skip" % (c, op))
                 continue
             a = e.get("a", {})
+            if e["out"][0] == "exc":
+                opn0 = op + (":" + s["operator"] if "operator" in s else "")
+                trace.append("%d:%s:exc" % (c, opn0))
+                vs.append(vio("unexpected_error", "Bits", opn0, e["id"], {"got": e["out"], "args": _short(a), "pre": _pre(e, a)}))
+                break
             exp_res = None
             has_res = False
             mutated = None
@@ -571,6 +578,7 @@ class C08(Machine):
                     exp_res = R.hw(cells[hc[a["h"]]])
                     has_res = True
             except (KeyError, TypeError, AssertionError, ZeroDivisionError):
+                probe("harness_inconsistency")   # never on a plan as generated (driver turns it into exit 2)
                 break        # (only through shrinking) the recorded operation no longer fits the model state
             opn = op + (":" + s["operator"] if "operator" in s else "")
             trace.append("%d:%s:%s" % (c, opn, wcls))
